@@ -27,6 +27,37 @@ theorem larch_invariant (ops : List LArchOp) (a : LArch) (h : runLArch ops = .ok
     ∀ l₁ ∈ a, ∀ l₂ ∈ a, ∀ f₁ ∈ l₁.2, ∀ f₂ ∈ l₂.2, f₁.isRegex = false → f₂.isRegex = false → f₁.id = f₂.id → l₁.1 = l₂.1 :=
   Pta.larch_invariant_lemma ops a h
 
+/-- `containing_modules([])` supplies no modules, so the layer stays open: for every history `h` after which a layer
+    `n` is open (the specification automaton accepts `h` in a state whose open layer is `n`), the history
+    `h, containing_modules([]), layer(m)` is rejected at the `layer` call — by the specification automaton, and
+    the builder model agrees with a configuration error at that very call -/
+theorem empty_module_list_keeps_layer_open (h : List LArchOp) (t : LTrack) (n m : Str)
+    (hacc : classifyLArch (h.map toLCall) = .accepted t) (hopen : t.opened = some n) :
+    classifyLArch ((h ++ [LArchOp.containingModules [], LArchOp.layer m]).map toLCall) = .rejectedAt (h.length + 1) ∧
+    runLArch (h ++ [LArchOp.containingModules [], LArchOp.layer m]) = .error (.improperlyConfigured, h.length + 1) :=
+  Pta.empty_module_list_keeps_open_lemma h t n m hacc hopen
+
+/-- the same on the specification vocabulary alone (every `LCall` history, not only images of model histories) -/
+theorem spec_empty_module_list_keeps_layer_open (cs : List LCall) (t : LTrack) (n m : Str)
+    (hacc : classifyLArch cs = .accepted t) (hopen : t.opened = some n) :
+    classifyLArch (cs ++ [.modules [], .layer m]) = .rejectedAt (cs.length + 1) :=
+  Pta.spec_empty_module_list_lemma cs t n m hacc hopen
+
+/-- the empty list on an open layer is itself accepted and changes nothing: same automaton state, same
+    architecture, the layer is still pending (so a later non-empty `containing_modules` / regex call fills it) -/
+theorem empty_module_list_is_noop (h : List LArchOp) (t : LTrack) (n : Str)
+    (hacc : classifyLArch (h.map toLCall) = .accepted t) (hopen : t.opened = some n) :
+    classifyLArch ((h ++ [LArchOp.containingModules []]).map toLCall) = .accepted t ∧
+    ∃ a, runLArch (h ++ [LArchOp.containingModules []]) = .ok a ∧ runLArch h = .ok a ∧ a.pending = [n] :=
+  Pta.empty_module_list_noop_lemma h t n hacc hopen
+
+/-- with no layer open, `containing_modules([])` is rejected at that call exactly like a non-empty list -/
+theorem empty_module_list_without_layer (h rest : List LArchOp) (t : LTrack)
+    (hacc : classifyLArch (h.map toLCall) = .accepted t) (hclosed : t.opened = none) :
+    classifyLArch ((h ++ LArchOp.containingModules [] :: rest).map toLCall) = .rejectedAt h.length ∧
+    runLArch (h ++ LArchOp.containingModules [] :: rest) = .error (.improperlyConfigured, h.length) :=
+  Pta.empty_module_list_closed_lemma h rest t hacc hclosed
+
 /-- a layer rule needs an architecture first and exactly one subject layer: violating call sequences are rejected
     at the offending call (shared with C13.layer_rule_history) -/
 theorem layer_rule_guards (mt : Str → Str → Bool) (a : LArch) (ops : List LayerRuleOp) (g : PGraph Str) (i : Nat)
@@ -41,5 +72,31 @@ theorem layer_rule_guards (mt : Str → Str → Bool) (a : LArch) (ops : List La
 example : runLArch [.layer "a".toList, .containingModules ["mod".toList], .layer "b".toList, .containingModules ["mod".toList]]
     = .error (.improperlyConfigured, 3) := by rfl
 example : ∃ a, runLArch [.layer "a".toList, .containingModules ["m".toList], .layer "b".toList, .containingModules ["mod".toList]] = .ok a := ⟨_, rfl⟩
+
+/-- core has no `DecidableEq (Except ε α)`; derived here so that the model runs below are checked by `decide` -/
+local instance instDecEqExcept {ε α : Type} [DecidableEq ε] [DecidableEq α] : DecidableEq (Except ε α)
+  | .ok a, .ok b => if h : a = b then isTrue (by rw [h]) else isFalse (by intro e; cases e; exact h rfl)
+  | .error a, .error b => if h : a = b then isTrue (by rw [h]) else isFalse (by intro e; cases e; exact h rfl)
+  | .ok _, .error _ => isFalse (by intro e; cases e)
+  | .error _, .ok _ => isFalse (by intro e; cases e)
+
+/-! `containing_modules([])`: `layer a, containing_modules [], layer b` (the seeded tuples-for-lists defect lets this pass) -/
+example : classifyLArch [.layer "a".toList, .modules [], .layer "b".toList] = .rejectedAt 2 := by decide
+example : runLArch [.layer "a".toList, .containingModules [], .layer "b".toList] = .error (.improperlyConfigured, 2) := by decide
+/-- the hypotheses of `empty_module_list_keeps_layer_open` hold for `h = [layer a]` (layer `a` open), and for a longer history -/
+example : classifyLArch ([LArchOp.layer "a".toList].map toLCall) = .accepted ⟨[], some "a".toList⟩ := by decide
+example : classifyLArch ([LArchOp.layer "a".toList, .containingModules ["x".toList], .withLayer, .layer "b".toList].map toLCall)
+    = .accepted ⟨[("a".toList, ["x".toList])], some "b".toList⟩ := by decide
+/-- `empty_module_list_without_layer`: hypotheses hold for the empty history and after a finished layer -/
+example : classifyLArch (([] : List LArchOp).map toLCall) = .accepted ⟨[], none⟩ := by decide
+example : classifyLArch [.layer "a".toList, .modules ["x".toList], .modules []] = .rejectedAt 2 := by decide
+example : runLArch [.layer "a".toList, .containingModules ["x".toList], .containingModules []] = .error (.improperlyConfigured, 2) := by decide
+/-- the empty list, then a non-empty one: accepted, the layer receives the later modules -/
+example : classifyLArch [.layer "a".toList, .modules [], .modules ["x".toList], .layer "b".toList]
+    = .accepted ⟨[("a".toList, ["x".toList])], some "b".toList⟩ := by decide
+example : runLArch [.layer "a".toList, .containingModules [], .containingModules ["x".toList], .layer "b".toList]
+    = .ok [("a".toList, [.name "x".toList]), ("b".toList, [])] := by decide
+/-- (a) stays a don't-care: a regex textually equal to a module name given elsewhere -/
+example : classifyLArch [.layer "a".toList, .modules ["x".toList], .layer "b".toList, .regex "x".toList] = .unspecified := by decide
 
 end Pta.C16
